@@ -47,11 +47,15 @@ def main():
         setup_cmd="./setup.sh",
         hooks=dict(
             guard="HAIWAY_VERIF",
-            enable="no source hooks are needed: checks import haiway from /repo/src (PYTHONPATH) and observe it through "
-                   "its public API and harness-owned test doubles; ./check exports HAIWAY_VERIF=1 for future hooks",
+            enable="nothing is built: checks import haiway from /repo/src (PYTHONPATH); ./check exports HAIWAY_VERIF=1. One "
+                   "add-only hook commit (src/haiway/utils/queue.py): with HAIWAY_VERIF=1 AND an observer installed by the "
+                   "harness (harness/qhook.py) every public call of AsyncQueue and every resumption of a suspended receive "
+                   "emits one event; C17 validates the traces of the repository's own tests and of programs on a real "
+                   "asyncio loop against QueueTrace.tla. All other checks observe the library through its public API and "
+                   "harness-owned test doubles.",
             baseline_off_cmd="cd /repo && env -u HAIWAY_VERIF /venv/bin/python -m pytest -ra -q -p no:cacheprovider "
                              "--timeout=900 --continue-on-collection-errors tests",
-            source_commits=[],
+            source_commits=["3b6eb43"],
             add_only=True,
         ),
         engines=[dict(name="tlc-conformance", path="/verif/check",
